@@ -229,7 +229,7 @@ func (s *Solver) Check() string {
 		}
 	} else {
 		// kill the slower process unless it answers soon. The int-blasting cvc5 is the one every arithmetic
-		// harness can be decided by on its own, so it gets seconds to finish (killing it means a respawn from
+		// harness can be decided by on its own, so it gets half a second to finish (killing it means a respawn from
 		// the transcript, which was the fragile step under load); bit-blasting z3 is cut off at once.
 		other := alt
 		if first.who == alt {
@@ -237,7 +237,7 @@ func (s *Solver) Check() string {
 		}
 		grace := 20 * time.Millisecond
 		if strings.HasPrefix(other.kind, "cvc5") {
-			grace = 2 * time.Second
+			grace = 500 * time.Millisecond
 		}
 		select {
 		case <-ch:
